@@ -368,7 +368,7 @@ def _driver(argv: list[str]) -> int:
     target, outdir = argv[0], argv[1]
     fuzz_args = argv[2:]
     from vf.run import check_import, setup_environment
-    setup_environment()
+    setup_environment(role="child")  # inherits the worker's private cache
     sys.path.insert(0, DEPS)
     import atheris
     check_import()
